@@ -275,7 +275,7 @@ fn c02(cfg: &CCfg, e: &Exec, f: &Facts, vs: &mut Vec<Violation>, nt: &mut bool) 
     if !f.panics.is_empty() {
         return;
     }
-    if let Some((_, q)) = &f.q1 {
+    if let Some((q1idx, q)) = &f.q1 {
         let (inbox, alive, inf) = (q[0], q[1] != 0, q[2]);
         if inbox > 0 && alive {
             v(
@@ -289,7 +289,9 @@ fn c02(cfg: &CCfg, e: &Exec, f: &Facts, vs: &mut Vec<Violation>, nt: &mut bool) 
             for (i, (st, polls)) in &f.q1c {
                 if *st == CS_RUNNING
                     && *polls > 0
-                    && !f.id_of.contains_key(&(*i as u32))
+                    // (not transmitted *by now*: a request that only goes out later, when some
+                    // unrelated timer happens to wake the dispatch, was stuck here all the same)
+                    && !f.wire.iter().any(|(idx, m)| idx < q1idx && matches!(m, Msg::Req { payload, .. } if *payload as usize == *i))
                     && inf < cfg.max_in_flight as i128
                 {
                     v(
@@ -797,6 +799,22 @@ fn c10(cfg: &CCfg, e: &Exec, f: &Facts, vs: &mut Vec<Violation>, nt: &mut bool) 
     if close_ok > 1 {
         v(vs, "C10-closed-twice", cfg, format!("{close_ok} successful closes"));
     }
+    // Every handle is gone by Q1 (no caller is left, no other handle is kept) and nothing went
+    // wrong on the transport: shutting down needs no timer - what is queued is transmitted, the
+    // write side is closed and the dispatch has completed while the clock stood still.
+    if let Some((_, q1)) = &f.q1 {
+        let all_ended = !f.q1c.is_empty() && f.q1c.values().all(|(st, _)| *st == CS_DONE || *st == CS_ABANDONED);
+        let dispatch_alive = q1[1] != 0;
+        if all_ended && !cfg.keep_root && dispatch_alive && f.eof_read.is_none() && f.dispatch_dropped.is_none() && cfg.fault.is_none() {
+            *nt = true;
+            v(
+                vs,
+                "C10-shutdown-waits",
+                cfg,
+                "every client handle has been dropped and everything has settled, yet the dispatch has not completed (it is waiting for something other than the transport: a reply or a timer)".into(),
+            );
+        }
+    }
     match (&f.eof_read, &f.dispatch_done, &f.dispatch_dropped) {
         (Some(eidx), done, None) => {
             *nt = true;
@@ -1284,6 +1302,21 @@ pub fn configs(prop: CProp, tier: Tier) -> Vec<CCfg> {
                     }
                 }
             }
+            // in-flight limit 2 reached by a short-deadline call and a long one, a third call
+            // queued behind the limit: whichever way the short one ends (expiry, abandonment
+            // before or after its deadline) the queued call gets its slot
+            // (seeded change C02g freed the slot of a call abandoned after its deadline without
+            // letting the write pump run again)
+            for (fl, cap) in [(Flavour::Always, 1usize), (Flavour::Coupled, 1)] {
+                for third_answered in [true, false] {
+                    let callers = vec![
+                        CallerCfg { deadline_ms: 50, ..CallerCfg::simple(false) },
+                        CallerCfg { deadline_ms: 10_000, ..CallerCfg::simple(false) },
+                        CallerCfg { deadline_ms: 10_000, ..CallerCfg::simple(third_answered) },
+                    ];
+                    out.push(base(callers, 2, 1, fl, cap, A_ABANDON | A_ADVANCE | A_DRAIN));
+                }
+            }
             // kept root handle, sequential reuse
             for (fl, cap) in &tr {
                 let mut callers: Vec<CallerCfg> = (0..3).map(|_| CallerCfg::simple(true)).collect();
@@ -1329,6 +1362,20 @@ pub fn configs(prop: CProp, tier: Tier) -> Vec<CCfg> {
                                 }
                             }
                         }
+                    }
+                }
+            }
+            // the abandoned call is the last one in flight while a handle stays alive (so the
+            // dispatch goes idle instead of shutting down), over transports that only transmit
+            // what was flushed (seeded change C03g skipped the idle flush with nothing in flight)
+            if prop == CProp::C03 {
+                for (fl, cap) in [(Flavour::Coupled, 1usize), (Flavour::Coupled, 2), (Flavour::FlushFrees, 2)] {
+                    for n in 1..=2usize {
+                        let mut callers: Vec<CallerCfg> = (0..n).map(|_| CallerCfg::simple(true)).collect();
+                        callers[n - 1].answered = false;
+                        let mut c = base(callers, 2, 1, fl, cap, alpha);
+                        c.keep_root = true;
+                        out.push(c);
                     }
                 }
             }
